@@ -1062,6 +1062,59 @@ def translate_cell_slice(path, fn, gname, member):
     return {"name": gname, "c_name": fn, "params": plist, "arrays": [], "loop": False, "outs": [], "ret": "int", "text": text}
 
 
+def translate_decision(path, fn, gname, markers):
+    """decision slice: which of the function's top-level branches is taken, as a function of the scalars the branch
+    conditions read.  `markers` names, per branch, a call that occurs in it (e.g. the allocator it uses); the slice walks the
+    if / else-if structure at the top of the function body: result k = index of the first branch (in source order) whose
+    condition path holds, the conditions translated as they stand."""
+    d = find_function(path, fn)
+    cx = Ctx(fn)
+    for p_ in d["inner"]:
+        if p_.get("kind") == "ParmVarDecl" and ctype(p_)[0] == "p":
+            cx.ptr_params.add(p_["name"])
+    body = [c for c in d["inner"] if c.get("kind") == "CompoundStmt"][0]
+    top = [s_ for s_ in body["inner"] if s_.get("kind") == "IfStmt"]
+    if not top:
+        raise Unsupported("decision %s: no top-level if" % fn)
+    first = top[0]
+    cond0, then0 = first["inner"][0], first["inner"][1]
+    if len(first["inner"]) < 3:
+        raise Unsupported("decision %s: first if has no else" % fn)
+    else0 = first["inner"][2]
+    if not has_call(then0, markers[0]):
+        raise Unsupported("decision %s: branch 0 does not call %s" % (fn, markers[0]))
+    inner_ifs = [s_ for s_ in (else0.get("inner", []) if else0.get("kind") == "CompoundStmt" else [else0]) if s_.get("kind") == "IfStmt"]
+    inner = [s_ for s_ in inner_ifs if has_call(s_["inner"][1], markers[1])]
+    if len(inner) != 1:
+        raise Unsupported("decision %s: expected one nested branch calling %s" % (fn, markers[1]))
+    cond1 = inner[0]["inner"][0]
+    term = "if %s then (0) else (if %s then (1) else (2))" % (tr_bool(cond0, cx), tr_bool(cond1, cx))
+    plist = sorted(cx.free)
+    sig = " ".join("(%s : Z)" % p_ for p_ in plist)
+    text = "Definition %s %s : Z :=\n%s.\n" % (gname, sig, term)
+    return {"name": gname, "c_name": fn, "params": plist, "arrays": [], "loop": False, "outs": [], "ret": "int", "text": text}
+
+
+def translate_condition(path, fn, gname, then_marker, else_marker):
+    """condition slice: the condition of the (unique) if statement of the function whose else-branch calls `else_marker` (and whose
+    then-branch calls `then_marker`), as a function of the scalars it reads: 1 when the then-branch is taken, else 0."""
+    d = find_function(path, fn)
+    cx = Ctx(fn)
+    for p_ in d["inner"]:
+        if p_.get("kind") == "ParmVarDecl" and ctype(p_)[0] == "p":
+            cx.ptr_params.add(p_["name"])
+    found = []
+    find_stmts(d, lambda n: n.get("kind") == "IfStmt" and len(n.get("inner", [])) == 3 and has_call(n["inner"][1], then_marker)
+               and has_call(n["inner"][2], else_marker) and not has_call(n["inner"][1], else_marker), found)
+    if len(found) != 1:
+        raise Unsupported("condition %s: %d candidate if statements" % (fn, len(found)))
+    term = "b2z %s" % tr_bool(found[0]["inner"][0], cx)
+    plist = sorted(cx.free)
+    sig = " ".join("(%s : Z)" % p_ for p_ in plist)
+    text = "Definition %s %s : Z :=\n%s.\n" % (gname, sig, term)
+    return {"name": gname, "c_name": fn, "params": plist, "arrays": [], "loop": False, "outs": [], "ret": "int", "text": text}
+
+
 def translate_guard(path, fn, gname, devcall, extra=()):
     """I/O funnel: translate the function up to its single call of `devcall`; the result is
          GRet rc        (returned before any device access)
@@ -1309,6 +1362,9 @@ def main():
     attempt("isSectNumValid", lambda: translate_function(src("adf_vol.c"), "isSectNumValid"))
     attempt("adfDevType", lambda: translate_function(src("adf_dev.c"), "adfDevType"))
     attempt("adfNormalSum", lambda: translate_function(src("adf_raw.c"), "adfNormalSum"))
+    attempt("adfFileCreateNextBlock.decision", lambda: translate_decision(src("adf_file.c"), "adfFileCreateNextBlock", "d_adfFileCreateNextBlock",
+            ("adfGet1FreeBlock", "adfGetFreeBlocks")))
+    attempt("adfAddInCache.fits", lambda: translate_condition(src("adf_cache.c"), "adfAddInCache", "d_adfAddInCache_fits", "adfPutCacheEntry", "adfGet1FreeBlock"))
     attempt("adfPutCacheEntry", lambda: translate_function(src("adf_cache.c"), "adfPutCacheEntry", extra_outs=("dirc_records",)))
     attempt("adfGetCacheEntry", lambda: translate_function(src("adf_cache.c"), "adfGetCacheEntry",
             extra_outs=("cEntry_header", "cEntry_size", "cEntry_protect", "cEntry_days", "cEntry_mins", "cEntry_ticks", "cEntry_type",
